@@ -69,6 +69,8 @@ pub struct Profile {
     pub midchunk: bool,
     /// percent of runs on small geometries
     pub small_geo_pct: u32,
+    /// make SM/RM sequences and Operator mode calls pick DECCOLM often (C16 round trip)
+    pub deccolm_bias: bool,
 }
 
 impl Profile {
@@ -87,6 +89,7 @@ impl Profile {
             max_len: 400,
             midchunk: true,
             small_geo_pct: 70,
+            deccolm_bias: false,
         }
     }
 }
@@ -352,8 +355,13 @@ fn sgr_seq(r: &mut Rng, out: &mut Vec<u8>, utf8: bool) {
     out.push(b'm');
 }
 
-fn mode_seq(r: &mut Rng, out: &mut Vec<u8>, utf8: bool) {
+fn mode_seq(r: &mut Rng, out: &mut Vec<u8>, utf8: bool, focus: Focus) {
     csi_intro(r, out, utf8);
+    if focus == Focus::Resize && r.chance(1, 2) {
+        // the DECCOLM 132-column round trip
+        out.extend_from_slice(if r.chance(1, 2) { b"?3h" } else { b"?3l" });
+        return;
+    }
     if r.chance(3, 5) {
         out.push(b'?');
     }
@@ -484,7 +492,7 @@ fn token(r: &mut Rng, out: &mut Vec<u8>, utf8: bool, g: Geo, focus: Focus, risky
         6 => csi_generic(r, out, utf8, g, ERASE_FINALS),
         7 => csi_generic(r, out, utf8, g, INSDEL_FINALS),
         8 => sgr_seq(r, out, utf8),
-        9 => mode_seq(r, out, utf8),
+        9 => mode_seq(r, out, utf8, focus),
         10 => osc_seq(r, out, utf8, risky),
         11 => match r.below(4) {
             0 => out.extend_from_slice(b"\x1bH"),
@@ -890,6 +898,12 @@ pub fn api_op(r: &mut Rng, g: Geo, focus: Focus) -> Op {
                 .collect();
             Some(if r.chance(1, 2) { SetMode(v, private) } else { ResetMode(v, private) })
         }
+        Focus::Resize if r.chance(1, 4) => Some(match r.below(4) {
+            0 => SetMode(vec![3], true),
+            1 => ResetMode(vec![3], true),
+            2 => SetMode(vec![96], false),
+            _ => ResetMode(vec![96], false),
+        }),
         Focus::InsDel if r.chance(3, 4) => Some(match r.below(4) {
             0 => InsertCharacters(n(r)),
             1 => DeleteCharacters(n(r)),
